@@ -574,6 +574,21 @@ def check(ctx):
                 ok2 = True       # (name, traj) of the same items() element
             if key is A("ref") and any(x is ref_traj for x in traj.walk()):
                 ok2 = True
+            if ok2 and traj.op == "sub" and traj.args[0].op == "elem":
+                # one loop over a list of (name, trajectory) pairs to which
+                # the reference was appended: the appended pair is an export
+                # site of its own (it replaces the separate --ref export)
+                extra = _appended_pairs(traj.args[0].args[0])
+                for k_, v_ in extra or ():
+                    okp = k_ is A("ref") and any(x is ref_traj
+                                                 for x in v_.walk())
+                    ctx.ob("C15.6", e, ok and okp,
+                           "export after all processing, the reference "
+                           "under the name given with --ref" if ok and okp
+                           else f"export at {e.where}: the appended pair "
+                                f"({fmt(k_)}, {fmt(v_)}) is not (--ref, "
+                                f"reference trajectory)",
+                           key="C15.6:export")
         ctx.ob("C15.6", e, ok and ok2,
                "export after all processing, trajectory under its own name"
                if ok and ok2 else
@@ -581,6 +596,28 @@ def check(ctx):
                + ("runs before processing finished" if not ok else
                   f"file stem {fmt(dest)} does not belong to the written "
                   f"trajectory {fmt(traj)}"), key="C15.6:export")
+
+
+def _appended_pairs(coll: T):
+    """the literal (key, value) pairs appended to a list of items()"""
+    out = []
+
+    def go(c: T, depth=0):
+        c = Interp.unname(c)
+        if depth > 8:
+            return
+        if c.op == "ite":
+            go(c.args[1], depth + 1)
+            go(c.args[2], depth + 1)
+        elif c.op == "mut" and c.args[1] == "append" and \
+                len(c.args[2]) == 1:
+            go(c.args[0], depth + 1)
+            p_ = Interp.unname(c.args[2][0])
+            if p_.op == "tuple" and len(p_.args) == 2 and \
+                    not any(p_.args == q for q in out):
+                out.append(p_.args)
+    go(coll)
+    return out
 
 
 def _delegated_inversion(ctx, prog, loader, flag: str) -> int:
